@@ -1590,8 +1590,9 @@ class HorosphereArc(Horosphere, PointPair):
 
         thetas = utils.circle_angles(center, model_coords)
 
+        # circle_angles expects an array of points for each center
         center_theta = utils.circle_angles(
-            center, self.center_coords(model=model)
+            center, np.expand_dims(self.center_coords(model=model), axis=-2)
         )[..., 0]
 
         thetas = np.flip(utils.arc_include(thetas, center_theta), axis=-1)
